@@ -1320,9 +1320,9 @@ class PathModel2(Model):
                 patterns=[INSIDE(a, b)]),
         ]
 
-    def path_inst(self, p, k, m=None, q=None):
-        """ground instances of lemma_axioms() at a := p, k := i := k, m := m
-        (default k - 1), b := q (default p)"""
+    def path_inst(self, p, k, m=None, q=None, i=None):
+        """ground instances of lemma_axioms() at a := p, k := k, i := i
+        (default k), m := m (default k - 1), b := q (default p)"""
         a = z3.Const("a!p", U)
         b = z3.Const("b!p", U)
         i_ = z3.Const("i!p", IntS)
@@ -1335,7 +1335,8 @@ class PathModel2(Model):
             body = ax.body()
             n = ax.num_vars()
             names = [ax.var_name(j) for j in range(n)]
-            vals = {"a!p": p, "b!p": q, "i!p": k, "k!p": k, "m!p": m}
+            vals = {"a!p": p, "b!p": q, "i!p": k if i is None else i,
+                    "k!p": k, "m!p": m}
             # de Bruijn: variable j (in binding order) has index n-1-j
             subs = [vals[names[j]] for j in range(n)]
             out.append(z3.substitute_vars(body, *reversed(subs)))
@@ -1675,7 +1676,43 @@ class DictCompModel(Model):
         st.assume(z3.ForAll([x], z3.Implies(src.dom[x], d.val[x] == bt)))
         return d
 
+    def _literal_alias(self, name):
+        """the string constants of `X = Literal[...]` / `X: TypeAlias =
+        Literal[...]` for an X imported from a module of the repository
+        (read from that module's source on every run)"""
+        from . import source as S
+        dotted = self.eng.imports.get(name, "")
+        if "." not in dotted:
+            return None
+        mod, attr = dotted.rsplit(".", 1)
+        rel = mod.replace(".", "/") + ".py"
+        try:
+            tree, _, _ = S.load_module(self.eng.repo, rel)
+        except Exception:  # noqa: BLE001
+            return None
+        for n in tree.body:
+            tgt = val = None
+            if isinstance(n, ast.AnnAssign) and isinstance(n.target, ast.Name):
+                tgt, val = n.target.id, n.value
+            elif isinstance(n, ast.Assign) and len(n.targets) == 1 and \
+                    isinstance(n.targets[0], ast.Name):
+                tgt, val = n.targets[0].id, n.value
+            if tgt == attr and isinstance(val, ast.Subscript) and \
+                    isinstance(val.value, ast.Name) and val.value.id == "Literal":
+                sl = val.slice
+                elts = sl.elts if isinstance(sl, ast.Tuple) else [sl]
+                if all(isinstance(e, ast.Constant) and isinstance(e.value, str)
+                       for e in elts):
+                    return [e.value for e in elts]
+        return None
+
     def call_global(self, st, name, node):
+        if name == "get_args" and self.eng.imports.get("get_args") == \
+                "typing.get_args" and len(node.args) == 1 and \
+                isinstance(node.args[0], ast.Name):
+            lits = self._literal_alias(node.args[0].id)
+            if lits is not None:
+                return VTuple([VU(self.eng.strconst(x)) for x in lits])
         if name == "defaultdict" and self.eng.imports.get(
                 "defaultdict", "") == "collections.defaultdict" and \
                 len(node.args) == 1 and isinstance(node.args[0], ast.Name) \
